@@ -261,6 +261,14 @@ func genC03(rng *rand.Rand, tier string) (cases []string) {
 	if tier == "thorough" {
 		n = 300000
 	}
+	// exhaustive over the byte alphabet: every byte as the only, the first, an inner and the
+	// last byte of a label (decides IsValidHostOuterRune / IsValidHostInnerRune for all bytes)
+	for b := 0; b < 256; b++ {
+		c := string([]byte{byte(b)})
+		for _, l := range []string{c, c + "a", "a" + c + "a", "a" + c, "_" + c, "_a" + c + "a"} {
+			cases = append(cases, "C03.lhost "+hx([]byte(l)), "C03.islhost "+hx([]byte(l)), "C03.ltld "+hx([]byte(l)), "C03.lsrv "+hx([]byte(l)))
+		}
+	}
 	ops := []string{"C03.host", "C03.domain", "C03.srv", "C03.ishost"}
 	lops := []string{"C03.lhost", "C03.ldomain", "C03.ltld", "C03.lsrv", "C03.islhost"}
 	for i := 0; i < n; i++ {
